@@ -8,7 +8,7 @@ from pathlib import Path
 from typing import Any, Dict, List, Optional, Tuple
 
 from fjverif import engines, macrogen
-from fjverif.common import case_hash, rng_for
+from fjverif.common import REPO_ROOT, case_hash, rng_for
 
 PROPERTY = 'C03'
 LEVEL = 'exploration'
@@ -21,7 +21,9 @@ def plan(tier: str, seed: int) -> List[Dict[str, Any]]:
     return [{'seed': seed, 'shard': i, 'cases': per, 'timeout_s': 1500 if quick else 7200} for i in range(n)]
 
 
-def assemble_files(files: List[Tuple[str, str]], w: int, tag: str) -> Tuple[str, Any, Any]:
+def assemble_files(files: List[Tuple[str, str]], w: int, tag: str, prefix: Any = (), keep_existing: bool = False) -> Tuple[str, Any, Any]:
+    """prefix: (short name, path) source files put in front (e.g. a file of the repository's stl, which goes through the parser's
+    stl-prefix cache); keep_existing: write over whatever an earlier assembly left at the output paths."""
     import flipjump
     from flipjump.assembler import assembler
     from flipjump.fjm.fjm_consts import FJMVersion
@@ -31,14 +33,14 @@ def assemble_files(files: List[Tuple[str, str]], w: int, tag: str) -> Tuple[str,
 
     d = engines.tmpdir() / tag
     d.mkdir(exist_ok=True)
-    tuples = []
+    tuples = list(prefix)
     for short, text in files:
         path = d / f'{short}.fj'
         path.write_text(text)
         tuples.append((short, path))
     out, dbg = d / 'out.fjm', d / 'out.fjd'
     for p in (out, dbg):
-        if p.exists():
+        if p.exists() and not keep_existing:
             p.unlink()
     try:
         with contextlib.redirect_stdout(io.StringIO()):
@@ -57,8 +59,13 @@ def assemble_files(files: List[Tuple[str, str]], w: int, tag: str) -> Tuple[str,
 
 
 def judge(gen: macrogen.Generated, counters: Dict[str, Any]) -> List[Tuple[str, str]]:
-    status_m, image_m, labels_m = assemble_files(gen.files, gen.w, 'macro')
-    status_i, image_i, labels_i = assemble_files([('f1', gen.inlined)], gen.w, 'inlined')
+    # now and then with a file of the repository's stl in front (macros only, no code): the parser keeps a per-process cache of
+    # the parsed stl prefix, and every program that follows is parsed on top of what the cache hands out
+    prefix = [('s0', REPO_ROOT / 'flipjump' / 'stl' / 'runlib.fj')] if counters.get('monitor_evaluations', 0) % 6 == 5 else []
+    if prefix:
+        counters['programs_behind_a_cached_stl_prefix'] = counters.get('programs_behind_a_cached_stl_prefix', 0) + 1
+    status_m, image_m, labels_m = assemble_files(gen.files, gen.w, 'macro', prefix=prefix)
+    status_i, image_i, labels_i = assemble_files([('f1', gen.inlined)], gen.w, 'inlined', prefix=prefix)
     counters['monitor_evaluations'] = counters.get('monitor_evaluations', 0) + 1
     counters.setdefault('outcomes', {})
     key = f'{status_m}/{status_i}'
